@@ -17,10 +17,12 @@ def run(ctx):
               label="negative self-test: local-time conversions are not proportional across a DST shift")
     recs = tc.gather(ctx, "map")
     tc.check(ctx, "map", recs, "C15_")
-    # the process's local zone is no input of the property: a slice of the same records is taken in a zone with DST
-    zrecs = tc.gather(ctx, "map", tz="EST5EDT,M3.2.0,M11.1.0", scale=0.2)
-    tc.check(ctx, "map", zrecs, "C15_", zone="US-Eastern-DST")
-    ctx.evaluations += len(zrecs)
+    # the process's local zone is no input of the property: slices of the same records are taken in a zone with DST and in
+    # one whose offset is not a whole number of hours
+    for zname, tz, sc in (("US-Eastern-DST", "EST5EDT,M3.2.0,M11.1.0", 0.2), ("India+5:30", "IST-5:30", 0.1)):
+        zrecs = tc.gather(ctx, "map", tz=tz, scale=sc)
+        tc.check(ctx, "map", zrecs, "C15_", zone=zname)
+        ctx.evaluations += len(zrecs)
     ctx.evaluations += len(recs)
     ctx.nontrivial += len({json.dumps([r["dom"], r["t"], r["t2"], r["r0"], r["r1"]]) for r in recs if r["t"] not in (r["dom"][0] + [0], r["dom"][1] + [0])})
     ctx.sample(recs[0])
